@@ -22,6 +22,9 @@ def _sp(tmp, wr, wa, wo, via='SPConfig'):
                world.idp_md(IDP_C, keys=(('idpAenc', 'encryption'),), sso=(('https://idpc.example/sso', world.BINDING_HTTP_REDIRECT),), slo=())]
         if via == 'SPConfig':
             _sp_cache[k] = world.make_sp(tmp, mds, **opts)
+        elif via == 'only-off':
+            # certificates outside the metadata are allowed for issuers the metadata holds no key for; idpA has one
+            _sp_cache[k] = world.make_sp(tmp, mds, top={'only_use_keys_in_metadata': False}, **opts)
         else:
             # the same configuration dictionary loaded through another documented route: a plain Config, or an
             # IdPConfig whose dictionary carries an idp section next to the sp section
@@ -119,6 +122,25 @@ def cells(thorough):
         for plain in ('signed', 'corrupted', 'unsigned'):
             for sr in opts:
                 out.append(dict(wr=wr, wa=wa, wo=wo, sr=sr, sa=True, enc='mixed', cor='plain-' + plain, ident='id0', primed=False))
+    # the same table for a response that arrives over the HTTP-Redirect binding (Destination and Recipient name the
+    # SP's Redirect endpoint): what has to be signed does not depend on the binding it came over
+    for wr, wa, wo in itertools.product(opts, repeat=3):
+        for sr, sa in itertools.product(opts, repeat=2):
+            for cor in ('none', 'ass-content', 'resp-sigvalue'):
+                if (cor.startswith('ass') and not sa) or (cor.startswith('resp') and not sr):
+                    continue
+                out.append(dict(wr=wr, wa=wa, wo=wo, sr=sr, sa=sa, enc=False, cor=cor, ident='id0', primed=False, binding='redirect'))
+    for sr, sa in itertools.product(opts, repeat=2):
+        out.append(dict(wr=None, wa=None, wo=None, sr=sr, sa=sa, enc=False, cor='none', ident='id0', primed=False, binding='redirect'))
+    # only_use_keys_in_metadata off: the issuer still has its key in the metadata, so a signature made with a foreign
+    # key whose certificate travels in the signature is an invalid signature all the same (and the genuine ones are valid)
+    for wr, wa, wo in itertools.product(opts, repeat=3):
+        for sr, sa in itertools.product(opts, repeat=2):
+            for cor in ('none', 'ass-wrongkey+embedded', 'resp-wrongkey+embedded'):
+                if (cor.startswith('ass') and not sa) or (cor.startswith('resp') and not sr):
+                    continue
+                for enc in (False, True):
+                    out.append(dict(wr=wr, wa=wa, wo=wo, sr=sr, sa=sa, enc=enc, cor=cor, ident='id0', primed=False, via='only-off'))
     # an assertion inside the Advice of the (plain) main assertion, carrying a signature of its own that is valid /
     # corrupted (its content edited before the enclosing signatures were made, so those stay valid) / absent
     for wr, wa, wo in itertools.product(opts, repeat=3):
@@ -171,14 +193,21 @@ def build(cell, now):
     cor = cell['cor']
     a = dict(IDENTS[cell['ident']])
     kw = dict(assertions=[a], sign_resp=False, sign_ass=False)
+    if cell.get('binding') == 'redirect':
+        kw['resp'] = dict(dest=world.ACS_REDIRECT)
+        a['confirmations'] = [forge.confirmation(now, recipient=world.ACS_REDIRECT)]
     nokey = cor.startswith('issuer-without-signing-key:')
     if nokey:
         a['issuer'] = IDP_C
         kw['resp'] = dict(issuer=IDP_C)
     if cell['sa']:
-        kw['sign_ass'] = 'mallory' if cor == 'ass-wrongkey' else (cor.split(':')[1] if nokey else 'idpA')
+        kw['sign_ass'] = 'mallory' if cor.startswith('ass-wrongkey') else (cor.split(':')[1] if nokey else 'idpA')
+        if cor == 'ass-wrongkey+embedded':
+            kw['ass_keyinfo'] = 'x509:mallory'
     if cell['sr']:
-        kw['sign_resp'] = 'mallory' if cor == 'resp-wrongkey' else (cor.split(':')[1] if nokey else 'idpA')
+        kw['sign_resp'] = 'mallory' if cor.startswith('resp-wrongkey') else (cor.split(':')[1] if nokey else 'idpA')
+        if cor == 'resp-wrongkey+embedded':
+            kw['resp_keyinfo'] = 'x509:mallory'
     if cell['enc'] == 'percert':
         kw['encrypt'] = 'spXenc2'
     elif cell['enc']:
@@ -249,7 +278,7 @@ def evaluate(cell):
     oc = None
     if cell['enc'] == 'percert':
         oc = {'req1': {'key': open(world.key('spXenc2')).read(), 'cert': open(world.crt('spXenc2')).read()}}
-    obs = oracle.accept_response(sp, xml, outstanding_certs=oc)
+    obs = oracle.accept_response(sp, xml, outstanding_certs=oc, **({'binding': world.BINDING_HTTP_REDIRECT} if cell.get('binding') == 'redirect' else {}))
     return {'accept': obs['accept'], 'exc': obs.get('exc'), 'tool_calls': env.Seam.count,
             'subject': (obs.get('identity') or {}).get('name_id', [None])[0] if obs['accept'] else None}
 
